@@ -300,32 +300,36 @@ Section Walk.
 
   Lemma step_reset a f isd : la_done a = false ->
     match la_skip a with Some sd => has_prefix f sd | None => false end = false ->
-    step a (f, isd) = step (mkLacc (la_count a) (la_found a) (la_prefixes a) (la_more a) None false) (f, isd).
+    step a (f, isd) = step (mkLacc (la_count a) (la_found a) (la_prefixes a) (la_more a) None false (la_last a)) (f, isd).
   Proof. intros H1 H2. unfold step, list_step. rewrite H1, H2. reflexivity. Qed.
 
-  Lemma step_dir c fo pr mo d :
-    step (mkLacc c fo pr mo None false) (d, true)
-    = if greater_than_prefix d prefix then mkLacc c fo pr mo None true
+  Lemma step_dir c fo pr mo la d :
+    step (mkLacc c fo pr mo None false la) (d, true)
+    = if greater_than_prefix d prefix then mkLacc c fo pr mo None true la
       else if less_than_prefix d cursor || less_than_prefix d prefix
-           then mkLacc c fo pr mo (Some (d ++ s_sep)) false
-           else mkLacc c fo pr mo None false.
+           then mkLacc c fo pr mo (Some (d ++ s_sep)) false la
+           else mkLacc c fo pr mo None false la.
   Proof. reflexivity. Qed.
 
-  Lemma step_file_gtp c fo pr mo n : greater_than_prefix n prefix = true ->
-    step (mkLacc c fo pr mo None false) (n, false) = mkLacc c fo pr mo None true.
-  Proof. intros H. unfold step, list_step. cbn. rewrite H. reflexivity. Qed.
-
-  Lemma step_file_inert c fo pr mo n : greater_than_prefix n prefix = false ->
-    lex_leb n cursor = true \/ has_prefix n prefix = false ->
-    step (mkLacc c fo pr mo None false) (n, false) = mkLacc c fo pr mo None false.
+  Lemma step_file_gtp c fo pr mo la n : greater_than_prefix n prefix = true ->
+    step (mkLacc c fo pr mo None false la) (n, false) = mkLacc c fo pr mo None true la.
   Proof.
-    intros H1 H2. unfold step, list_step. cbn. rewrite H1. destruct (lex_leb n cursor); [reflexivity|].
+    intros H. unfold step, list_step. cbn [la_done la_skip la_count la_found la_prefixes la_more la_last].
+    rewrite H. reflexivity.
+  Qed.
+
+  Lemma step_file_inert c fo pr mo la n : greater_than_prefix n prefix = false ->
+    lex_leb n cursor = true \/ has_prefix n prefix = false ->
+    step (mkLacc c fo pr mo None false la) (n, false) = mkLacc c fo pr mo None false la.
+  Proof.
+    intros H1 H2. unfold step, list_step. cbn [la_done la_skip la_count la_found la_prefixes la_more la_last].
+    rewrite H1. destruct (lex_leb n cursor); [reflexivity|].
     destruct H2 as [H2|H2]; [discriminate|]. rewrite H2. reflexivity.
   Qed.
 
-  Lemma step_file_skip_none c fo pr mo n : la_skip (step (mkLacc c fo pr mo None false) (n, false)) = None.
+  Lemma step_file_skip_none c fo pr mo la n : la_skip (step (mkLacc c fo pr mo None false la) (n, false)) = None.
   Proof.
-    unfold step, list_step. cbn [la_done la_skip la_count la_found la_prefixes la_more].
+    unfold step, list_step. cbn [la_done la_skip la_count la_found la_prefixes la_more la_last].
     repeat match goal with
     | |- context [match ?x with _ => _ end] =>
         lazymatch x with
@@ -336,7 +340,7 @@ Section Walk.
   Qed.
 
   Definition obs_eq (a b : lacc) : Prop :=
-    la_found a = la_found b /\ la_prefixes a = la_prefixes b /\ la_more a = la_more b.
+    la_found a = la_found b /\ la_prefixes a = la_prefixes b /\ la_more a = la_more b /\ la_last a = la_last b.
 
   Lemma obs_eq_refl a : obs_eq a a.
   Proof. repeat split. Qed.
@@ -348,7 +352,7 @@ Section Walk.
   Proof.
     unfold step, list_step. destruct (la_done a); [apply obs_eq_refl|].
     destruct (match la_skip a with Some d0 => has_prefix d d0 | None => false end); [apply obs_eq_refl|].
-    cbn [la_count la_found la_prefixes la_more]. destruct (greater_than_prefix d prefix); [repeat split|].
+    cbn [la_count la_found la_prefixes la_more la_last]. destruct (greater_than_prefix d prefix); [repeat split|].
     destruct (less_than_prefix d cursor || less_than_prefix d prefix); repeat split.
   Qed.
 
@@ -356,7 +360,7 @@ Section Walk.
   Proof.
     intros H. unfold step, list_step. destruct (la_done a); [apply obs_eq_refl|].
     destruct (match la_skip a with Some d0 => has_prefix n d0 | None => false end); [apply obs_eq_refl|].
-    cbn [la_count la_found la_prefixes la_more]. rewrite H. repeat split.
+    cbn [la_count la_found la_prefixes la_more la_last]. rewrite H. repeat split.
   Qed.
 
   Lemma fold_dirs_obs ds : forall a, obs_eq (fold_left step (map dirent ds) a) a.
@@ -390,17 +394,17 @@ Section Walk.
   Qed.
 
   (* the directory entries of one name *)
-  Lemma dirs_fold n c fo pr mo : forall ds sk,
+  Lemma dirs_fold n c fo pr mo la : forall ds sk,
     (forall d, In d ds -> exists t, n = (d ++ s_sep) ++ t) -> good_skip sk ->
-    (exists sk', good_skip sk' /\ fold_left step (map dirent ds) (mkLacc c fo pr mo sk false) = mkLacc c fo pr mo sk' false)
+    (exists sk', good_skip sk' /\ fold_left step (map dirent ds) (mkLacc c fo pr mo sk false la) = mkLacc c fo pr mo sk' false la)
     \/ (greater_than_prefix n prefix = true
-        /\ fold_left step (map dirent ds) (mkLacc c fo pr mo sk false) = mkLacc c fo pr mo None true).
+        /\ fold_left step (map dirent ds) (mkLacc c fo pr mo sk false la) = mkLacc c fo pr mo None true la).
   Proof.
     induction ds as [|d r IH]; intros sk Hext Hsk; [left; exists sk; auto|]. cbn [map fold_left]. change (dirent d) with (d, true).
     assert (Hr : forall d0, In d0 r -> exists t, n = (d0 ++ s_sep) ++ t) by (intros d0 H0; apply Hext; right; exact H0).
     destruct (match sk with Some sd => has_prefix d sd | None => false end) eqn:Em.
     - rewrite step_skipped by (cbn; auto). apply IH; auto.
-    - rewrite step_reset by (cbn; auto). cbn [la_count la_found la_prefixes la_more]. rewrite step_dir.
+    - rewrite step_reset by (cbn; auto). cbn [la_count la_found la_prefixes la_more la_last]. rewrite step_dir.
       destruct (greater_than_prefix d prefix) eqn:Eg.
       + right. rewrite fold_step_done by reflexivity. split; [|reflexivity].
         destruct (Hext d (or_introl eq_refl)) as [t ->]. rewrite gtp_pcmp in Eg |- *.
@@ -420,8 +424,8 @@ Section Walk.
   Qed.
 
   (* the file entry of a name, both walks in step *)
-  Lemma file_sim n c fo pr mo sk rest : good_skip sk -> Forall (lex_lt n) rest ->
-    winv (step (mkLacc c fo pr mo sk false) (n, false)) (step (mkLacc c fo pr mo None false) (n, false)) rest.
+  Lemma file_sim n c fo pr mo la sk rest : good_skip sk -> Forall (lex_lt n) rest ->
+    winv (step (mkLacc c fo pr mo sk false la) (n, false)) (step (mkLacc c fo pr mo None false la) (n, false)) rest.
   Proof.
     intros Hsk Hrest.
     destruct (match sk with Some sd => has_prefix n sd | None => false end) eqn:Em.
@@ -434,8 +438,8 @@ Section Walk.
         * rewrite step_file_inert by auto. split; [repeat split|]. split; [reflexivity|]. left. auto.
       + destruct (pcmp_lt_facts _ _ Hp) as [Hg [Hnp _]].
         rewrite step_file_inert by auto. split; [repeat split|]. split; [reflexivity|]. left. auto.
-    - rewrite step_reset by (cbn; auto). cbn [la_count la_found la_prefixes la_more].
-      set (a' := step (mkLacc c fo pr mo None false) (n, false)).
+    - rewrite step_reset by (cbn; auto). cbn [la_count la_found la_prefixes la_more la_last].
+      set (a' := step (mkLacc c fo pr mo None false la) (n, false)).
       split; [apply obs_eq_refl|]. split; [apply step_file_skip_none|].
       destruct (la_done a') eqn:Ed; [right; auto|]. left. repeat split; auto.
       left. apply step_file_skip_none.
@@ -449,9 +453,9 @@ Section Walk.
   Proof.
     intros Hext Hrest [Hobs [Hskm Hcase]]. rewrite fold_left_app. cbn [fold_left].
     destruct Hcase as [[Hdf [Hdm [Hc Hsk]]]|[Hdm Hdead]].
-    - destruct af as [c fo pr mo sk df], am as [c' fo' pr' mo' sk' dm]. unfold obs_eq in Hobs.
-      cbn in Hobs, Hdf, Hdm, Hc, Hsk, Hskm. destruct Hobs as [-> [-> ->]]. subst.
-      destruct (dirs_fold n c' fo' pr' mo' ds sk Hext Hsk) as [[sk1 [Hsk1 ->]]|[Hg ->]].
+    - destruct af as [c fo pr mo sk df la], am as [c' fo' pr' mo' sk' dm la']. unfold obs_eq in Hobs.
+      cbn in Hobs, Hdf, Hdm, Hc, Hsk, Hskm. destruct Hobs as [-> [-> [-> ->]]]. subst.
+      destruct (dirs_fold n c' fo' pr' mo' la' ds sk Hext Hsk) as [[sk1 [Hsk1 ->]]|[Hg ->]].
       + apply file_sim; assumption.
       + rewrite step_done by reflexivity. rewrite step_file_gtp by exact Hg.
         split; [repeat split|]. split; [reflexivity|]. right. auto.
@@ -482,7 +486,7 @@ Section Walk.
   Qed.
 
   Lemma step_root a : la_done a = false -> la_skip a = None ->
-    step a ([], true) = mkLacc (la_count a) (la_found a) (la_prefixes a) (la_more a) None false.
+    step a ([], true) = mkLacc (la_count a) (la_found a) (la_prefixes a) (la_more a) None false (la_last a).
   Proof.
     intros H1 H2. rewrite step_reset by (try rewrite H2; auto). rewrite step_dir.
     rewrite gtp_pcmp, !ltp_pcmp. reflexivity.
@@ -494,10 +498,10 @@ Section Walk.
     = list_walk delim cursor prefix maxres (ents names).
   Proof.
     intros Hs. unfold list_walk. cbn [fold_left]. fold step. rewrite step_root by reflexivity.
-    cbn [la_count la_found la_prefixes la_more].
-    destruct (walk_sim names [] (mkLacc 0 [] [] false None false) (mkLacc 0 [] [] false None false) Hs) as [H1 [H2 H3]].
+    cbn [la_count la_found la_prefixes la_more la_last].
+    destruct (walk_sim names [] (mkLacc 0 [] [] false None false None) (mkLacc 0 [] [] false None false None) Hs) as [H1 [H2 [H3 H4]]].
     { split; [apply obs_eq_refl|]. split; [reflexivity|]. left. repeat split. left. reflexivity. }
-    fold step. rewrite H1, H2, H3. reflexivity.
+    fold step. rewrite H1, H2, H3, H4. reflexivity.
   Qed.
 End Walk.
 
@@ -507,7 +511,7 @@ End Walk.
 (* MAIN THEOREM.  For every bucket kept sorted (strictly ascending names, hence duplicate-free:
    what the store invariant gives), every delimiter, cursor, prefix and page size, the file walk
    — root, directory entries, SkipDir pruning, early abort — returns the same
-   (found, prefixes, more) as the memory walk.
+   (found, prefixes, more, last) as the memory walk.
    No "representable" side condition is needed.  In a directory tree a name cannot be a file and a
    directory at once, but [fs_entries] is defined for every name list (a name that is also a
    directory of another name simply yields a file entry and a directory entry with the same path,
@@ -536,7 +540,8 @@ Corollary fs_walk_equiv_nodelim (bk : bucket) cursor prefix maxres :
   asorted bk ->
   list_walk [] cursor prefix maxres (fs_entries bk)
   = (firstn maxres (filter (sel cursor prefix) (map fst bk)), [],
-     (maxres <? length (filter (sel cursor prefix) (map fst bk)))%nat).
+     (maxres <? length (filter (sel cursor prefix) (map fst bk)))%nat,
+     last_opt (firstn maxres (filter (sel cursor prefix) (map fst bk)))).
 Proof. intros Hs. rewrite fs_walk_equiv by exact Hs. apply page_spec_bucket. exact Hs. Qed.
 
 (* ================================================================== *)
@@ -622,7 +627,7 @@ Proof.
   unfold find_obj. destruct (get_bucket s b) as [bk|] eqn:E; [|discriminate].
   set (cur := match cursor with Some c => c | None => [] end).
   pose proof (page_sound delim cur prefix (Z.to_nat m) (fs_entries bk)) as Hps.
-  destruct (list_walk delim cur prefix (Z.to_nat m) (fs_entries bk)) as [[found prs] more].
+  destruct (list_walk delim cur prefix (Z.to_nat m) (fs_entries bk)) as [[[found prs] more] lst].
   destruct Hps as [Hf _]. intros H. injection H as _ <- _ _. clear - Hf.
   induction Hf as [|n r [_ [H1 H2]] _ IH]; [constructor|]. cbn [flat_map]. apply Forall_app. split; [|exact IH].
   destruct (alookup n bk) as [o|] eqn:El; constructor; [|constructor]. cbn [view v_name]. exists o. auto.
@@ -684,9 +689,9 @@ Theorem old_walk_order_refuted :
   /\ map fst c09_bk = [c09_foo_bar_x; c09_foo_y]
   /\ fs_sort_walk (map fst c09_bk) = [c09_foo_y; c09_foo_bar_x]
   /\ fs_sort (map fst c09_bk) = [c09_foo_bar_x; c09_foo_y]
-  /\ list_walk [] [] c09_foo_dash 1000 (fs_entries_walk c09_bk) = ([], [], false)
-  /\ list_walk [] [] c09_foo_dash 1000 (fs_entries c09_bk) = ([c09_foo_bar_x], [], false)
-  /\ list_walk [] [] c09_foo_dash 1000 (mem_entries c09_bk) = ([c09_foo_bar_x], [], false)
+  /\ list_walk [] [] c09_foo_dash 1000 (fs_entries_walk c09_bk) = ([], [], false, None)
+  /\ list_walk [] [] c09_foo_dash 1000 (fs_entries c09_bk) = ([c09_foo_bar_x], [], false, Some c09_foo_bar_x)
+  /\ list_walk [] [] c09_foo_dash 1000 (mem_entries c09_bk) = ([c09_foo_bar_x], [], false, Some c09_foo_bar_x)
   /\ list_proj (snd (handle_fs c09_state c09_list)) = ([c09_foo_bar_x], [], None)
   /\ handle_fs c09_state c09_list = handle c09_state c09_list.
 Proof.
